@@ -31,6 +31,11 @@ def run(repo: Repo, chk: Check) -> None:
     returns(repo, chk)
     binding(repo, chk)
     region_handlers(repo, chk)
+    # "KEK bound to L0-L2": the seed material the cache hands to get_kek covers the blob's position (C10-O1/O2/O3)
+    from .c10 import get_key, store_key
+
+    get_key(repo, chk)
+    store_key(repo, chk)
 
 
 def primitives(repo: Repo, chk: Check) -> None:
